@@ -187,6 +187,7 @@ func (l *Gsub1_2) encodeLen() int {
 func (l *Gsub1_2) encode() []byte {
 	n := len(l.SubstituteGlyphIDs)
 	covOffs := 6 + 2*n
+	checkOffset16(covOffs)
 
 	buf := make([]byte, covOffs+l.Cov.EncodeLen())
 	// buf[0] = 0
@@ -309,6 +310,7 @@ func (l *Gsub2_1) encode() []byte {
 		sequenceOffsets[i] = uint16(covOffs)
 		covOffs += 2 + 2*len(repl)
 	}
+	checkOffset16(covOffs)
 
 	buf := make([]byte, covOffs+l.Cov.EncodeLen())
 	// buf[0] = 0
@@ -433,6 +435,7 @@ func (l *Gsub3_1) encode() []byte {
 		alternateSetOffsets[i] = uint16(covOffs)
 		covOffs += 2 + 2*len(repl)
 	}
+	checkOffset16(covOffs)
 
 	buf := make([]byte, covOffs+l.Cov.EncodeLen())
 	// buf[0] = 0
@@ -827,12 +830,15 @@ func (l *Gsub8_1) encode() []byte {
 	coverageOffset := total
 	total += l.Input.EncodeLen()
 	backtrackCoverageOffsets := make([]uint16, backtrackGlyphCount)
+	checkOffset16(coverageOffset)
 	for i, cov := range l.Backtrack {
+		checkOffset16(total)
 		backtrackCoverageOffsets[i] = uint16(total)
 		total += cov.EncodeLen()
 	}
 	lookaheadCoverageOffsets := make([]uint16, lookaheadGlyphCount)
 	for i, cov := range l.Lookahead {
+		checkOffset16(total)
 		lookaheadCoverageOffsets[i] = uint16(total)
 		total += cov.EncodeLen()
 	}
